@@ -72,6 +72,8 @@ type callRec struct {
 	consumedAt time.Duration // first consumed reply
 	consumedTk string
 	tokens     map[string]bool
+	hold       bool // the adversary withholds the reply until told (wrap-around scenario)
+	heldSeen   chan struct{}
 	held       bool // caller was held at the written hook until the reader had dispatched
 	syncOK     bool // sync handshake completed (reply consumed+dispatched before Write returned)
 }
@@ -85,6 +87,12 @@ type run struct {
 	injK  map[injKey]*injRec
 	rng   *rand.Rand
 	nrep  int
+	heldQ []heldQuery
+}
+
+type heldQuery struct {
+	c  *fakenet.Conn
+	qi dnsadv.QueryInfo
 }
 
 type injKey struct {
@@ -184,6 +192,16 @@ func (r *run) onWrite(c *fakenet.Conn, data []byte) error {
 		pad := r.rng.Intn(300)
 		r.mu.Unlock()
 		if cl == nil {
+			continue
+		}
+		if cl.hold {
+			r.mu.Lock()
+			r.heldQ = append(r.heldQ, heldQuery{c: c, qi: qi})
+			r.mu.Unlock()
+			select {
+			case cl.heldSeen <- struct{}{}:
+			default:
+			}
 			continue
 		}
 		cs.mu.Lock()
@@ -377,6 +395,114 @@ func runCell(cl cell) (violated bool) {
 	return violated
 }
 
+// runWrap: one query stays outstanding on a datagram connection while more than
+// 65536 others pass (the 16-bit wire-ID counter wraps past the outstanding ID);
+// then its reply arrives. The reply is consumed by the reader, so the call must
+// return it.
+func runWrap(seed int64, n int) {
+	cl := cell{Transport: "tdc", Stream: false, Mode: "async", After: "open", Callers: 1, Rep: 0, Seed: seed}
+	caselog.Log(map[string]any{"wrap": cl})
+	r := &run{cell: cl, net: fakenet.NewNet(), calls: map[int]*callRec{}, injK: map[injKey]*injRec{}, rng: rand.New(rand.NewSource(seed))}
+	curRun.Store(r)
+	defer curRun.Store(nil)
+	ex, closeFn := r.makeExchanger()
+	defer closeFn()
+	hseq := int(seqCounter.Add(1))
+	hc := &callRec{seq: hseq, id: 0xBEEF, tokens: map[string]bool{}, hold: true, heldSeen: make(chan struct{}, 1)}
+	r.mu.Lock()
+	r.calls[hseq] = hc
+	r.mu.Unlock()
+	type res struct {
+		rb  *[]byte
+		err error
+	}
+	done := make(chan res, 1)
+	hctx, hcancel := context.WithTimeout(context.Background(), 120*time.Second)
+	defer hcancel()
+	go func() {
+		rb, err := ex(hctx, dnsadv.Query(hc.id, hseq, 1, "c02", 1))
+		done <- res{rb, err}
+	}()
+	select {
+	case <-hc.heldSeen:
+	case <-time.After(5 * time.Second):
+		rep.Inconclusive("wrap: held query never reached the adversary")
+		return
+	}
+	var wg sync.WaitGroup
+	var failed atomic.Int64
+	for w := 0; w < 4; w++ {
+		wg.Add(1)
+		go func() {
+			defer wg.Done()
+			for i := 0; i < n/4; i++ {
+				seq := int(seqCounter.Add(1))
+				c := &callRec{seq: seq, id: uint16(seq), tokens: map[string]bool{}}
+				r.mu.Lock()
+				r.calls[seq] = c
+				r.mu.Unlock()
+				ctx, cancel := context.WithTimeout(context.Background(), 5*time.Second)
+				rb, err := ex(ctx, dnsadv.Query(c.id, seq, 1, "c02", 1))
+				cancel()
+				if err != nil {
+					failed.Add(1)
+				} else {
+					pool.ReleaseBuf(rb)
+				}
+				r.mu.Lock()
+				delete(r.calls, seq)
+				r.mu.Unlock()
+			}
+		}()
+	}
+	wg.Wait()
+	rep.Eval(1)
+	// now the held query's reply arrives (to its first transmission and every resend)
+	r.mu.Lock()
+	hq := r.heldQ
+	r.heldQ = nil
+	hc.hold = false
+	r.mu.Unlock()
+	if len(hq) == 0 {
+		rep.Inconclusive("wrap: no held transmission recorded")
+		return
+	}
+	first := hq[0]
+	tok := fmt.Sprintf("r/c%d/q%d/held", first.c.ID, hseq)
+	msg := dnsadv.Reply(first.qi.WireID, 0x8180, first.qi.QSect, tok, 10, 1)
+	id := first.c.Inject(msg)
+	r.mu.Lock()
+	r.injK[injKey{first.c, id}] = &injRec{cl: hc, tok: tok}
+	r.mu.Unlock()
+	if !first.c.WaitConsumed(id, 5*time.Second) {
+		rep.Inconclusive("wrap: reader did not consume the held reply")
+		return
+	}
+	consumedAt := time.Now()
+	wit := map[string]any{"scenario": "wire-id wrap-around with one query outstanding", "exchanges_passed": n, "fast_calls_failed": failed.Load(), "held_wire_id": first.qi.WireID}
+	select {
+	case x := <-done:
+		if x.err != nil {
+			rep.Violation("reply-lost-after-wire-id-wrap", fmt.Sprintf("the reply to a query that stayed outstanding while %d others passed was consumed by the reader but the call failed: %v", n, x.err), wit)
+			return
+		}
+		ri, perr := dnsadv.ParseReply(*x.rb)
+		pool.ReleaseBuf(x.rb)
+		if perr != nil || ri.Token != tok {
+			rep.Violation("reply-lost-after-wire-id-wrap", fmt.Sprintf("held call returned %q instead of its consumed reply", ri.Token), wit)
+			return
+		}
+		rep.Count("wrap_held_call_returned_its_reply", 1)
+		rep.Nontrivial("wrap|held-survived")
+		rep.Nontrivial(fmt.Sprintf("wrap|n%d", n))
+	case <-time.After(3 * time.Second):
+		wit["waited_ms_after_consumption"] = time.Since(consumedAt).Milliseconds()
+		rep.Violation("reply-lost-after-wire-id-wrap", fmt.Sprintf("the reply to a query that stayed outstanding while %d others passed was consumed by the reader %d ms ago, the caller's deadline is far away, and the call has not returned", n, time.Since(consumedAt).Milliseconds()), wit)
+		hcancel()
+		<-done
+	}
+}
+
 func main() {
 	rep = evid.New("C02", "exploration")
 	caselog = evid.OpenCaseLog()
@@ -441,6 +567,7 @@ func main() {
 		}
 	}
 	runtime.GOMAXPROCS(16)
+	runWrap(rep.Seed, 66000)
 	poolsan.Sweep()
 	rep.Count("cells", int64(cells))
 	for name, n := range sched.Counts() {
